@@ -20,6 +20,7 @@ import numpy as np
 from lib import core
 
 EXTRACTORS = ["Update"]
+EXTRA_PROPS = ["C14Join", "C14Dtype"]   # lower_update_correct_partial, lower_get_at_correct, intermediate_spec; index dtype obligations
 MODES = ("set", "add", "sub")
 OPNAME = {"set": "set_at", "add": "add_at", "sub": "subtract_at"}
 BACKENDS = ("numpy", "numpy.numpylike")
@@ -834,6 +835,23 @@ def run(ctx):
             if got != addr["lowered"]:
                 model_bad += 1
                 ctx.tie_broken("correspondence:ravel-kernel", f"get_at({get_description(case, names)!r}) on a ramp: real {got} vs model {addr['lowered']}")
+
+    # -- work package "join": the lowering as a function of the description alone (with the C16 model of `_join_exprs`)
+    #    against the complete traced graph; index dtype of `_ravel` (Props/C14Join.lean, Props/C14Dtype.lean)
+    if drv is not None:
+        import random as _random
+        from props import at_tie
+        trng = _random.Random(f"c14-at:{ctx.seed}")
+        calls = []
+        for _ in range(60 if ctx.quick else 600):
+            c = gen_case(trng, small=True)
+            if 0 in c["sizes"].values():
+                continue
+            shapes, kwargs = at_tie.from_update_case(None, c)
+            calls.append((OPNAME[trng.choice(MODES)], description(c), shapes, kwargs))
+        at_tie.at_tie(ctx, 30 if ctx.quick else 400, calls, arange_dtype=facts.get("arange_dtype", "?"))
+        if not facts.get("arange_dtype_wide", False):
+            ctx.notes.append("T-src: the index ranges of `_ravel` are not created in a fixed dtype of at least 32 bits (obligation extracted_index_dtype_wide fails)")
 
     found += narrow_dtype_stream(ctx)
 
